@@ -236,7 +236,8 @@ def pinnedCfg (maxAlloc : Nat) : Cfg := { p2pTop := false, p2pSub := false, maxA
 
 /-! ### string form (sidecar/codec.go) -/
 
-def prefixBytes : Bytes := sidecarPrefix.toUTF8.toList
+/-- the bytes of the (ASCII) prefix string -/
+def prefixBytes : Bytes := sidecarPrefix.toList.map (fun c => UInt8.ofNat c.toNat)
 /-- `encodingVersion = []byte{0}` (regenerated) -/
 def encVersion : Bytes := Pool.Gen.C15.encodingVersion.map UInt8.ofNat
 
